@@ -32,7 +32,7 @@ def property_items(kind, st, rules):
     raise ValueError(kind)
 
 
-def search(su, U, k, K, kind, early=False, resume=False, k2=0, timeout_s=300, solver="kissat"):
+def search(su, U, k, K, kind, early=False, resume=False, k2=0, timeout_s=300, solver="kissat", assume_acyclic=False, extra_assume=None):
     """returns (script lines, info) or (None, reason)"""
     t0 = time.time()
     h = H.SymHistory(su, U, None)
@@ -90,6 +90,18 @@ def search(su, U, k, K, kind, early=False, resume=False, k2=0, timeout_s=300, so
         def on_return_second(rv):
             bad.append(-M.conj(property_items(kind, h.st, su.rules)))
         h.sym_close(K, False, on_cond, on_return_second)
+    if assume_acyclic:
+        # C17 quantifies over acyclic morphism graphs: the generated code answers a cycle with a panic (`expect` on the
+        # Err of morphism_toposort); those histories are outside the claim, every other panic is a violation
+        for g, kk, msg in h.ctx.events:
+            if kk == "panic":
+                if "on Err" in msg:
+                    h.assume.append(-g)
+                else:
+                    bad.append(g)
+    if extra_assume is not None:
+        h.assume += extra_assume(h)
+
     def loopbound(msg):
         return kind == "noalloc" and msg.startswith("loop bound") and msg.endswith("in close_until")
     bound = c.orl([g for g, kk, msg in h.ctx.events if kk in ("bound", "compact") and not loopbound(msg)])
@@ -159,7 +171,7 @@ def replay(su, sch, harness, name, script, kind, rules, U=8):
     return bool(failing), failing
 
 
-def search_forced(su, U, k, K, timeout_s=300, solver="kissat"):
+def search_forced(su, U, k, K, timeout_s=300, solver="kissat", k2=0):
     """C02 witness: a history from new(), a model N of the reference rules and an interpretation h of the caller-created
     elements in N that satisfies every asserted fact, such that after close() some tuple over caller-created elements is
     not mapped into N or two caller-created elements with different images are equal.  Returns (script, info) | (None, why)"""
@@ -193,6 +205,14 @@ def search_forced(su, U, k, K, timeout_s=300, solver="kissat"):
         for i in range(U):
             h.assume.append(c.implies(h.st.in_range(t, i), c.orl([c.and2(hom.lit(t, i, v), gh.exists(t, v)) for v in range(U)])))
     bad = []
+    if k2:
+        # an intermediate close(), then k2 further assertions about the elements created so far (no allocation)
+        h.sym_close(K, False, lambda g: None, lambda rv: None)
+        allmuts = h.muts
+        h.muts = [(n, it) for n, it in allmuts if n.startswith("insert_") or n.startswith("equate_")]
+        for i in range(k2):
+            h.sym_call(k + i)
+        h.muts = allmuts
 
     def on_return(rv):
         st = h.st
@@ -220,7 +240,7 @@ def search_forced(su, U, k, K, timeout_s=300, solver="kissat"):
     if r == "unsat":
         return None, "no history with U=%d, %d calls, %d iterations derives a fact that some model of the rules and of the assertions lacks (encode %.1fs, %d nodes)" % (U, k, K, enc, c.n)
     script = h.decode(model)
-    return script, {"U": U, "k": k, "K": K, "nodes": c.n, "encode_s": round(enc, 1), "N": gh.decode(c, model), "h": hom.decode(c, model)}
+    return script, {"U": U, "k": k, "k2": k2, "K": K, "nodes": c.n, "encode_s": round(enc, 1), "N": gh.decode(c, model), "h": hom.decode(c, model)}
 
 
 def replay_forced(su, sch, harness, name, script, info, U=8):
@@ -238,6 +258,8 @@ def replay_forced(su, sch, harness, name, script, info, U=8):
     if not lines or not lines[-1].startswith("close"):
         return False, ["script does not end in close"]
     body = lines[:-1]
+    first_close = min([i for i, l in enumerate(body) if l.startswith("close")] + [len(body)])
+    body = body[:first_close] + ["dump"] + body[first_close:]
     rc, out, err = harness.run(name, body + ["dump", "close", "dump"], timeout=60)
     if rc != 0:
         return True, ["native run panics: " + err.strip().split("\n")[0][:200]]
@@ -250,8 +272,10 @@ def replay_forced(su, sch, harness, name, script, info, U=8):
     def image(t, x):
         return hmap[t][x] if x < len(hmap[t]) else None
     # the assertions of the script hold in N under h
-    for l, r in zip(body, rets):
+    for l, r in zip([l for l in body if l != "dump"], rets):
         w = l.split()
+        if w[0].startswith("close"):
+            continue
         r = H.normalise_native_ret(r, nt)
         fn = w[0]
         a = [int(x) for x in w[1:] if x.isdigit()]
@@ -268,8 +292,7 @@ def replay_forced(su, sch, harness, name, script, info, U=8):
                 return False, ["N does not satisfy the assertion %s = %s under h" % (l, r)]
         elif fn.startswith("new_") and len(w) > 1:
             return False, ["enum constructors in the script: not handled by this replay"]
-    before, after = dumps[0], dumps[1]
-    st = M.State(sch, N.state_from_dump(sch, after, U)) if False else None
+    before, after = dumps[0], dumps[-1]
     nat = N.canonical_native(sch, after)
     n0 = {t: int(before[("uf", t)].split(" ", 1)[0]) for t in sch.types}
     roots = {t: N.ints(after[("uf", t)].split(" ", 1)[1]) for t in sch.types}
